@@ -1,6 +1,6 @@
 SPEC = dict(
     props_file="Props/C42.v",
-    level="partial",
+    level="proof",
     observers=[dict(cmd="obs_compatargs", imports=["Model.GoRedisSpec", "Model.CompatArgs"], case_type="CompatArgs.fcase",
                     check="CompatArgs.fcheck", n={"quick": 2250, "thorough": 110000}, shard=280)],
     rule="75 method families (132 methods of rueidiscompat.Cmdable, Result.Kind = method name) called in turn on a Compat over a "
